@@ -23,12 +23,20 @@ FACTS_FOR = {
     "C14": ["Props/FactsKeys.v"],    # Performance marshal/unmarshal key tables are the model's
     "C20": ["Props/FactsCaps.v"],    # max_samples, second_ms
     "C06": ["Props/FactsCaps.v"],    # channel capacities of the reader pipelines
+    "C10": ["Props/FactsLocks.v"],   # synchronized collectors and catcher: write lock on every mutating method
 }
+
+# properties whose obligations read Generated/LockPaths.v (harness/lockpaths.go); C16's own check regenerates it itself
+LOCKPATHS_FOR = {"C10"}
 
 
 def regenerate(check):
     """regenerate coq/Generated/{TypeTables,PerfKeys,Caps}.v from verif.REPO; returns (ok, log)"""
     out_dir = os.path.join(verif.COQ, "Generated")
+    if check.pid in LOCKPATHS_FOR:
+        rc, out = check.harness(["lockpaths", verif.REPO, os.path.join(out_dir, "LockPaths.v")], timeout=120)
+        ok = rc == 0 and re.search(r"lockpaths: \d+ entries", out) is not None
+        return ok, out
     rc, out = check.harness(["facts", verif.REPO, out_dir], timeout=120)
     ok = rc == 0 and all(re.search(r"^facts: %s (unchanged|written)$" % re.escape(f), out, flags=re.M)
                          for f in GENERATED)
